@@ -8,7 +8,7 @@
 // the tuning (high water + what the bounded in-memory channels can hold + one message per publisher); once the transport drains every
 // blocked publisher resumes (all threads finish), and every message accepted before, during and after the stall arrives exactly once, whole
 // and in publishing order per channel; the byte stream the transport saw splits into whole frames whatever the fragmentation (C01).
-// Bound: the grid below (count printed), plus 6 scenarios with 3 concurrent publishers of 70 000 / 100 000 byte bodies; waits use generous timeouts that only matter when something hangs.
+// Bound: the grid below (count printed), 8 partial-drain scenarios, 12 scenarios with empty / 1-byte / 2-byte bodies, plus 6 scenarios with 3 concurrent publishers of 70 000 / 100 000 byte bodies; waits use generous timeouts that only matter when something hangs.
 include!("/verif/witness/_common/live_broker.rs");
 use crate::{Auth, Channel, Connection, ConnectionOptions, ConnectionTuning, Error, Publish};
 use std::sync::atomic::{AtomicUsize, Ordering};
@@ -17,7 +17,7 @@ use std::thread;
 const T: Duration = Duration::from_secs(20);
 
 #[allow(non_snake_case)]
-fn run(bound: usize, high: usize, low: usize, publishers: usize, BODY: usize, PER_PUBLISHER: usize) {
+fn run(bound: usize, high: usize, low: usize, publishers: usize, BODY: usize, PER_PUBLISHER: usize, partial_drain: bool) {
     let what = format!("mem_channel_bound={} high={} low={} publishers={} body={}", bound, high, low, publishers, BODY);
     let ctl = Handle::new();
     let tuning = ConnectionTuning::default().mem_channel_bound(bound).buffered_writes_high_water(high).buffered_writes_low_water(low);
@@ -38,10 +38,12 @@ fn run(bound: usize, high: usize, low: usize, publishers: usize, BODY: usize, PE
             thread::spawn(move || {
                 for seq in 0..PER_PUBLISHER {
                     let mut body = vec![(i as u8) ^ (seq as u8); BODY];
-                    body[0] = i as u8;
-                    body[1] = seq as u8;
-                    ch.basic_publish("", Publish::new(&body, format!("p{}", i))).unwrap_or_else(|e| panic!("publisher {} message {}: {}", i, seq, e));
-                    submitted.fetch_add(BODY, Ordering::SeqCst);
+                    if BODY >= 2 {
+                        body[0] = i as u8;
+                        body[1] = seq as u8;
+                    }
+                    ch.basic_publish("", Publish::new(&body, format!("p{}-{}", i, seq))).unwrap_or_else(|e| panic!("publisher {} message {}: {}", i, seq, e));
+                    submitted.fetch_add(BODY.max(1), Ordering::SeqCst);
                 }
                 ch
             })
@@ -58,7 +60,7 @@ fn run(bound: usize, high: usize, low: usize, publishers: usize, BODY: usize, PE
         last = now;
         assert!(start.elapsed() < T, "{}: publishers never settled", what);
     }
-    let total = publishers * PER_PUBLISHER * BODY;
+    let total = publishers * PER_PUBLISHER * BODY.max(1);
     // each message is one in-memory channel entry of about BODY + 100 bytes; while throttled the I/O thread reads no entries
     let per_message = BODY + 200;
     let limit = high + per_message /* the message that crossed the mark */ + publishers * (bound + 2) * per_message;
@@ -67,6 +69,18 @@ fn run(bound: usize, high: usize, low: usize, publishers: usize, BODY: usize, PE
         assert!(last < total, "{}: publishers were never blocked", what);
     }
     assert_eq!(ctl.accepted(), before, "{}: the transport accepted bytes during the stall", what);
+
+    // ---- partial drain: the transport takes just enough to bring the backlog below the low-water mark - far from emptying it - and stalls again:
+    // the blocked publishers must resume (accept further messages) although the transport is stalled again
+    if partial_drain && total > limit {
+        let grant = publishers * (bound + 2) * per_message + high.saturating_sub(low) + per_message;
+        ctl.set_budget(Some(grant));
+        let start = Instant::now();
+        while submitted.load(Ordering::SeqCst) <= last {
+            assert!(start.elapsed() < T, "{}: the transport took {} bytes, which brings the backlog below the low-water mark, and stalled again: no blocked publisher resumed", what, grant);
+            thread::sleep(Duration::from_millis(5));
+        }
+    }
 
     // ---- while throttled: a channel is opened and another one closed from other threads (they complete once the transport drains)
     let ctl2 = ctl.clone();
@@ -106,39 +120,62 @@ fn run(bound: usize, high: usize, low: usize, publishers: usize, BODY: usize, PE
     }
     let _ = ctl2;
 
-    // ---- every message exactly once, whole, in order per channel
+    // ---- every message exactly once, whole, in order per channel: Publish, its header, its body frames, then the next message
     let frames = ctl.take_seen();
     for i in 0..publishers {
         let n = 1 + i as u16;
         let mut seqs = Vec::new();
-        let mut cur: Option<(usize, Vec<u8>)> = None; // (announced size, body so far)
-        for (c, f) in frames.iter().filter(|(c, _)| *c == n) {
-            let _ = c;
+        enum St {
+            Idle,
+            AwaitHeader(usize),
+            Body(usize, usize, Vec<u8>), // (seq, announced size, body so far)
+        }
+        let mut st = St::Idle;
+        let mut finish = |seq: usize, acc: Vec<u8>, seqs: &mut Vec<usize>| {
+            assert_eq!(acc.len(), BODY, "{}", what);
+            if BODY >= 2 {
+                assert_eq!(acc[0] as usize, i, "{}: a message of another publisher on channel {}", what, n);
+                assert_eq!(acc[1], seq as u8, "{}: channel {}: body of another message", what, n);
+                assert!(acc[2..].iter().all(|b| *b == (i as u8) ^ acc[1]), "{}: corrupted body", what);
+            }
+            seqs.push(seq);
+        };
+        for (_, f) in frames.iter().filter(|(c, _)| *c == n) {
             match f {
                 AMQPFrame::Method(_, AMQPClass::Basic(B::Publish(p))) => {
-                    assert!(cur.is_none(), "{}: channel {}: a publish started inside another message", what, n);
-                    assert_eq!(p.routing_key, format!("p{}", i), "{}", what);
+                    assert!(matches!(st, St::Idle), "{}: channel {}: a publish started inside another message", what, n);
+                    let seq: usize = p.routing_key.strip_prefix(&format!("p{}-", i)).and_then(|s| s.parse().ok()).unwrap_or_else(|| panic!("{}: channel {}: routing key {:?}", what, n, p.routing_key));
+                    st = St::AwaitHeader(seq);
                 }
-                AMQPFrame::Header(_, _, h) => cur = Some((h.body_size as usize, Vec::new())),
-                AMQPFrame::Body(_, b) => {
-                    let done = {
-                        let (size, acc) = cur.as_mut().unwrap_or_else(|| panic!("{}: channel {}: body frame without header", what, n));
-                        acc.extend_from_slice(b);
-                        assert!(acc.len() <= *size, "{}: channel {}: more body bytes than announced", what, n);
-                        acc.len() == *size
-                    };
-                    if done {
-                        let (_, acc) = cur.take().unwrap();
-                        assert_eq!(acc.len(), BODY, "{}", what);
-                        assert_eq!(acc[0] as usize, i, "{}: a message of another publisher on channel {}", what, n);
-                        assert!(acc[2..].iter().all(|b| *b == (i as u8) ^ acc[1]), "{}: corrupted body", what);
-                        seqs.push(acc[1] as usize);
+                AMQPFrame::Header(_, _, h) => match st {
+                    St::AwaitHeader(seq) => {
+                        assert_eq!(h.body_size as usize, BODY, "{}: channel {}: announced size", what, n);
+                        if h.body_size == 0 {
+                            finish(seq, Vec::new(), &mut seqs);
+                            st = St::Idle;
+                        } else {
+                            st = St::Body(seq, h.body_size as usize, Vec::new());
+                        }
                     }
-                }
-                AMQPFrame::Method(_, AMQPClass::Basic(B::Qos(_))) => {}
+                    _ => panic!("{}: channel {}: content header that does not follow a publish", what, n),
+                },
+                AMQPFrame::Body(_, b) => match std::mem::replace(&mut st, St::Idle) {
+                    St::Body(seq, size, mut acc) => {
+                        acc.extend_from_slice(b);
+                        assert!(acc.len() <= size, "{}: channel {}: more body bytes than announced", what, n);
+                        if acc.len() == size {
+                            finish(seq, acc, &mut seqs);
+                        } else {
+                            st = St::Body(seq, size, acc);
+                        }
+                    }
+                    _ => panic!("{}: channel {}: body frame without header", what, n),
+                },
+                AMQPFrame::Method(_, AMQPClass::Basic(B::Qos(_))) => assert!(matches!(st, St::Idle), "{}: channel {}: a method inside a message", what, n),
                 other => panic!("{}: unexpected frame on channel {}: {:?}", what, n, other),
             }
         }
+        assert!(matches!(st, St::Idle), "{}: channel {}: the last message is incomplete", what, n);
         assert_eq!(seqs, (0..PER_PUBLISHER).collect::<Vec<_>>(), "{}: channel {}: messages seen by the broker", what, n);
     }
     for ch in channels {
@@ -158,7 +195,7 @@ fn verif_sweep_c18_stalls_bound_buffering_and_lose_nothing() {
             // a scenario that hangs (a publisher or a flush that never resumes) is a failure, not a timeout of the test harness
             let (tx, rx) = std::sync::mpsc::channel();
             thread::spawn(move || {
-                run(bound, high, low, publishers, 3000, 40);
+                run(bound, high, low, publishers, 3000, 40, false);
                 let _ = tx.send(());
             });
             match rx.recv_timeout(Duration::from_secs(60)) {
@@ -171,13 +208,34 @@ fn verif_sweep_c18_stalls_bound_buffering_and_lose_nothing() {
     println!("C18 sweep: {} scenarios", count);
 }
 
+// low-water marks close to the high-water mark, and a transport that drains only a small part of the backlog before it stalls again
+#[test]
+fn verif_sweep_c18_partial_drain_below_low_water_resumes_publishers() {
+    for &(bound, high, low) in &[(1usize, 100_000usize, 95_000usize), (1, 100_000, 60_000), (4, 200_000, 190_000), (1, 60_000, 60_000)] {
+        for &publishers in &[1usize, 2] {
+            with_watchdog(format!("partial drain: mem_channel_bound={} high={} low={} publishers={}", bound, high, low, publishers), 90, move || run(bound, high, low, publishers, 3000, 120, true));
+        }
+    }
+}
+
+// messages with an empty body (they end with their header frame) and tiny ones, many per publisher, through a stall with tiny in-memory queues:
+// nothing may be stranded or overtaken (C02: every message is Publish, header, body frames, in that order)
+#[test]
+fn verif_sweep_c02_empty_and_tiny_bodies_through_a_stall() {
+    for &body in &[0usize, 1, 2] {
+        for &(bound, publishers) in &[(1usize, 1usize), (1, 3), (2, 2), (16, 3)] {
+            with_watchdog(format!("body={} mem_channel_bound={} publishers={}", body, bound, publishers), 90, move || run(bound, 0, 0, publishers, body, 200, false));
+        }
+    }
+}
+
 // the same with bodies of 100 000 and 70 000 bytes (one body frame each, larger than any hand-over or socket-write granularity below frame_max
 // = 131 072): several threads publish concurrently through a stall and a stepwise drain; every frame must still be whole on the wire (C01)
 #[test]
 fn verif_sweep_c01_big_frames_of_concurrent_publishers_stay_whole() {
     for &(bound, high, low) in &[(1usize, 0usize, 0usize), (4, 10_000, 5_000), (16, 200_000, 50_000)] {
         for &body in &[100_000usize, 70_000] {
-            with_watchdog(format!("mem_channel_bound={} high={} low={} publishers=3 body={}", bound, high, low, body), 90, move || run(bound, high, low, 3, body, 12));
+            with_watchdog(format!("mem_channel_bound={} high={} low={} publishers=3 body={}", bound, high, low, body), 90, move || run(bound, high, low, 3, body, 12, false));
         }
     }
 }
